@@ -196,7 +196,7 @@ func c19Emit(fs *Facts) {
 		return
 	}
 	save := f.Func("swamp", "SaveFunction")
-	del := f.Func("swamp", "deleteHandler")
+	del := f.Func("swamp", ccDeleteHandlerName(f))
 	sendE := f.Func("swamp", "sendEventToHydra")
 	sendD := f.Func("swamp", "sendDeletedEventToClient")
 	if save == nil || del == nil || sendE == nil || sendD == nil {
